@@ -319,6 +319,7 @@ func init() {
 			c.guard("OPT.ORDER", r.ruleOptOrder)
 			c.guard("RW.ALLFILES", func() { r.ruleAllFiles(false) })
 			c.guard("RW.FILEPASSES", r.ruleFilePasses)
+			c.guard("RW.COMMENTS", r.ruleComments)
 			c.guard("RW.TMPL.HOIST", r.rulePass0)
 			c.guard("RW.BRANCHCTX", r.ruleBranchCtx)
 			c.guard("RW.TMPL.ITERTYPE", r.ruleIterType)
